@@ -1,10 +1,10 @@
 From Coq Require Extraction.
 From Coq Require Import ExtrOcamlBasic.
-From AIT Require Import Base.Vio C10.Model C10.Spec C10.ModelFG C10.ModelBU.
+From AIT Require Import Base.Vio C10.Model C10.Spec C10.ModelFG C10.ModelBU C10.ModelEDI.
 From AIT Require C12.Model.
 Extraction "model.ml" vio_kit updateTraces updateTraces_history match_pf extractDominated_idx
   fib_sparse_max fib_sparse_max_fix wrun deltaPrune_last_deref
   fg_run fg_getFactors fg_getVariables fg_variableSize fg_factorSize fg_factor_list fg_bestVariableToRemove fgop_okb
   pf_wfb strict_incb q_wfb tr_inb match_spec ut_expected
-  extractBestUsefulPoints_idx extractBestUsefulPoints_fix
-  C12.Model.dominates C12.Model.extractDominated C12.Model.findBestAtPointV.
+  extractBestUsefulPoints_idx extractBestUsefulPoints_fix extractDominatedIncremental_idx
+  C12.Model.dominates C12.Model.extractDominated C12.Model.extractDominatedIncremental C12.Model.findBestAtPointV.
